@@ -30,6 +30,10 @@ pub struct Case {
     pub big_cap: bool,
     /// 0 valid; 1 negative tolerance; 2 k1 < 0; 3 k2 = 0.5; 4 k2 = 1; 5 k2 = 1+phi; 6 k2 = 3; 7 n0 < 0
     pub invalid: u8,
+    /// bisection only: n_max is exactly the number of halvings the stopping rule needs (single root in the bracket,
+    /// and the count unambiguous: log2((b-a)/(2 tau)) at least 0.05 away from an integer)
+    #[serde(default)]
+    pub exact_cap: bool,
 }
 
 const NFUNC: u8 = 12;
@@ -91,7 +95,20 @@ pub fn run_case(case: &Case) -> Outcome {
     let tol = if case.invalid == 1 { -case.tol } else { case.tol };
     let width = hi - lo;
     let nbis = ((width / case.tol).log2().ceil().max(0.0)) as usize;
-    let n_max = if case.big_cap { 200 } else { nbis + 5 };
+    let mut n_max = if case.big_cap { 200 } else { nbis + 5 };
+    if case.exact_cap && solver == 0 && case.invalid == 0 && !same_sign {
+        // half-interval after k midpoint evaluations: w / 2^(k+1); Ok as soon as it is < tau = tol max(1, |x|)
+        let slack0 = 4.0 * EPS * lo.abs().max(hi.abs());
+        let rts: Vec<f64> = roots_u(kind, p, (lo - r) / sigma, (hi - r) / sigma).into_iter().map(|u| r + sigma * u).filter(|&z| z >= lo - slack0 && z <= hi + slack0).collect();
+        if rts.len() == 1 {
+            let tau = case.tol * rts[0].abs().max(1.0);
+            let q = (width / (2.0 * tau)).log2();
+            if (q - q.round()).abs() >= 0.05 && (rts[0].abs() - 1.0).abs() > 1e-3 {
+                n_max = if q < 0.0 { 1 } else { q.floor() as usize + 1 };
+                o.label("bisection-exact-cap");
+            }
+        }
+    }
     let (k1, k2, n0) = {
         let mut k1 = case.k1 / width;
         let mut k2 = case.k2;
@@ -244,6 +261,7 @@ fn strategy(_t: Tier) -> BoxedStrategy<Case> {
             n0,
             big_cap,
             invalid,
+            exact_cap: !big_cap && steep >= 1.0 && (tol * 1e12).fract() < 0.5,
             }
         })
         .boxed()
@@ -256,14 +274,14 @@ pub fn run(opts: &Opts) -> i32 {
         for func in 0..NFUNC {
             for s in [1.0, -1.0] {
                 for (r, w1, w2) in [(0.0, 1.0, 1.0), (1.5, 0.5, 2.0), (-7.25, 0.001, 3.0)] {
-                    spec.enumerated.push(Case { solver, func, s, r, sigma: 1.0, p: (1.25, 0.75), w1, w2, reversed: false, tol: 1e-6, k1: 0.1, k2: 2.0, n0: 0.99, big_cap: false, invalid: 0 });
+                    spec.enumerated.push(Case { solver, func, s, r, sigma: 1.0, p: (1.25, 0.75), w1, w2, reversed: false, tol: 1e-6, k1: 0.1, k2: 2.0, n0: 0.99, big_cap: false, invalid: 0, exact_cap: solver == 0 });
                 }
             }
         }
     }
     spec.cases = opts.tier.pick(1_200_000, 30_000_000);
     spec.essential = vec![("decreasing", 0.3), ("bisection", 0.2), ("brent", 0.2), ("itp", 0.2), ("multi-root", 0.01), ("same-sign", 0.005), ("invalid-params", 0.03), ("bisection-reversed", 0.05), ("nonlinear-at-tolerance-scale", 0.03)];
-    spec.rule = "generated: solver x catalogue function s*g((x-r)/sigma) (linear, cubic, u(1+u^2), expm1, atan, sin, u^5/7/9, tanh, three-root cubic, expm1*(2+cos 3u)) with s=+-1, root r in [-10,10] incl. 0 and dyadic values, sigma 10^[-1,1] (times 1e-2 or 1e-3 in two fifths of the cases: functions that are strongly non-linear on the scale of a loose tolerance), bracket [r-w1, r+w2] with w 10^[-3,0.5] or dyadic, either order, tol 10^[-12,-2], ITP k1 10^[-2,1]/(b-a), k2 in (1.01,2.6), n0 in [0,3]; invalid class: negative tolerance, k1<0, k2 in {0.5,1,1+phi,3}, n0<0, same-sign ends (arises for sin/three-root brackets), reversed bisection bracket. Oracle: recorded abscissae inside the bracket, evaluation budget, Ok => inside bracket and within tol (relative to max(1,|x|) for bisection) of a sign-change root of the catalogue function (or |f|<tol for Brent), Ok required on valid input, Err on invalid. Non-trivial = decreasing, or bracket not containing 0, or several roots in the bracket, or >= 10 evaluations. Distinct = distinct case JSON.".into();
+    spec.rule = "generated: solver x catalogue function s*g((x-r)/sigma) (linear, cubic, u(1+u^2), expm1, atan, sin, u^5/7/9, tanh, three-root cubic, expm1*(2+cos 3u)) with s=+-1, root r in [-10,10] incl. 0 and dyadic values, sigma 10^[-1,1] (times 1e-2 or 1e-3 in two fifths of the cases: functions that are strongly non-linear on the scale of a loose tolerance), bracket [r-w1, r+w2] with w 10^[-3,0.5] or dyadic, either order, tol 10^[-12,-2], ITP k1 10^[-2,1]/(b-a), k2 in (1.01,2.6), n0 in [0,3]; invalid class: negative tolerance, k1<0, k2 in {0.5,1,1+phi,3}, n0<0, same-sign ends (arises for sin/three-root brackets), reversed bisection bracket. Oracle: recorded abscissae inside the bracket, evaluation budget, Ok => inside bracket and within tol (relative to max(1,|x|) for bisection) of a sign-change root of the catalogue function (or |f|<tol for Brent), Ok required on valid input (bisection also with n_max exactly the number of halvings its stopping rule needs), Err on invalid. Non-trivial = decreasing, or bracket not containing 0, or several roots in the bracket, or >= 10 evaluations. Distinct = distinct case JSON.".into();
     spec.assumptions = vec!["catalogue root sets are analytic; sin roots k*pi rounded to f64 (covered by the 16 eps allowance)".into()];
     spec.max_discard_frac = 0.05;
     run_spec(spec, opts)
